@@ -159,9 +159,24 @@ def run(ck, P):
     ONE = E["M_SRC_ONESHOT"]
     ps = P.fn("poll_set_new_evt")
     ck.analysed(ps)
-    ors = [e for e in ps.events() if e.kind == "assign" and S(e.lhs) == "ev->events" and e.e["op"] == "|=" and cval(e.rhs) == (1 << 30)]
-    ck.ob("C03.4-ONESHOT", ps.site("EPOLLONESHOT"), bool(ors) and all(has(X.facts(ps, e), "(tmp->flags & %d)" % ONE) for e in ors),
-          "EPOLLONESHOT set under tmp->flags & M_SRC_ONESHOT: %s" % bool(ors))
+    # per path: the event mask finally stored has EPOLLONESHOT exactly when the path took the M_SRC_ONESHOT branch
+    badm = None
+    nm = 0
+    for path in ps.paths():
+        feas, _env, a, _evs = rules.simulate(ps, path)
+        if not feas:
+            continue
+        stored, v = rules.path_final_const(ps, path, "ev->events")
+        if not stored:
+            continue
+        nm += 1
+        one = a.get("(tmp->flags & %d)" % ONE)
+        if v is None or one is None or bool(v & (1 << 30)) != one or not (v & 1):
+            badm = (path, v, one)
+    ck.ob("C03.4-ONESHOT", ps.site("EPOLLONESHOT"), badm is None and nm > 0,
+          "%d path(s) store the event mask: EPOLLIN always, EPOLLONESHOT exactly under tmp->flags & M_SRC_ONESHOT" % nm if badm is None else
+          "a path stores the event mask %s with tmp->flags & M_SRC_ONESHOT %s: a one-shot source is polled level-triggered (delivered again and again) "
+          "or a persistent one only once" % (badm[1], badm[2]), path=rules.fmt_path(ps, badm[0]) if badm else None)
     rm1 = [e for e in rv.calls("m_bst_remove") if S(e.args[1]) == "p"]
     rm2 = [e for e in rv.calls("m_map_remove") if "subscriptions" in S(e.args[0])]
     okr = bool(rm1) and bool(rm2)
